@@ -7,7 +7,7 @@ EXTENDS Manager
 
 CONSTANTS MaxCalls,      \* budget of tag/view API calls
           MaxViews,
-          Menu,          \* which definition menu to use: "tags" | "files" | "conv"
+          Menu,          \* which definition menu to use: "tags" | "tagsb" | "subs" | "files" | "bytes" | "errs" | "conv" | "convq" | "subq"
           Invalid,       \* TRUE: also issue calls that must be rejected (C11)
           Crashes,       \* TRUE: also take crash copies of the data directory (C12; no effect on the model state)
           Restarts,      \* TRUE: the process may be killed between two steps and restarted (C12; spends a call)
@@ -43,6 +43,9 @@ DefsFor(name) ==
            [] Menu = "bytes" -> {Def("P", 80, <<>>, ""), Def("B", 2, <<>>, ""), Def("D", 2, <<>>, "")}
            [] Menu = "errs"  -> {Def("P", 80, <<>>, ""), Def("E", 0, <<>>, ""), Def("D", 2, <<>>, "")}
            [] Menu = "conv"  -> {Def("P", 80, <<>>, ""), Def("L", 2, <<>>, ""), Def("D", 2, <<>>, ""), Def("C", 0, <<>>, "")}
+           \* ... and a payload filter inside a sub-query (depends on the converter output of other streams)
+           [] Menu = "convq" -> {Def("P", 80, <<>>, ""), Def("L", 2, <<>>, ""), Def("D", 2, <<>>, ""), Def("C", 0, <<>>, ""), Def("Q", 0, <<>>, "")}
+           [] Menu = "subq"  -> {Def("P", 80, <<>>, ""), Def("Q", 0, <<>>, "")}
 BadDefsFor(name) ==      \* definitions that make a call invalid
     {Def("X", 0, <<>>, ""), Def("R", 0, <<>>, name), Def("R", 0, <<>>, "tag/ghost")}
     \cup (IF IsMarkName(name) THEN {Def("P", 80, <<>>, "")} ELSE {})
